@@ -98,7 +98,7 @@ package db
 //@ func openOrCreateKV(path, kek) (ret, err)
 //@   requires diskHas(disk, path) ==> wfClear(clearOfFile(diskData(disk, path), kek))
 //@   ensures [C03,C05 open.readonly] old(diskHas(disk, path)) ==> disk == old(disk)
-//@   ensures [C03 open.fields] err == nil ==> (ret != nil && fresh(ret) && ret.gen == 1 && ret.path == path && ret.kekCipher == kek)
+//@   ensures [C03,C17 open.fields] err == nil ==> (ret != nil && fresh(ret) && ret.gen == 1 && ret.path == path && ret.kekCipher == kek)
 //@   ensures [C02,C03 open.wf] err == nil ==> wf(ret)
 //@   ensures [C03,C05 open.decodes] err == nil ==> sync(ret)
 //@   ensures [C05 open.keys] err == nil ==> keys(ret)
